@@ -24,6 +24,7 @@ var (
 	AddrForwarder2 = common.HexToAddress("0x000000000000000000000000000000000000100c") // second forwarder (for nesting)
 	AddrSuicide2   = common.HexToAddress("0x000000000000000000000000000000000000100d") // second self-destructor
 	AddrEmptyAcct  = common.HexToAddress("0x000000000000000000000000000000000000100e") // exists in genesis with nonce 1 only
+	AddrCallFail   = common.HexToAddress("0x000000000000000000000000000000000000100f") // CALL(w0, value w1, data rest), SSTORE, then INVALID
 )
 
 const (
@@ -121,13 +122,22 @@ func codeBouncer() []byte {
 	return NewAsm().Push(0).Push(0).Push(0).Push(0).Op(CALLVALUE, CALLER).Push(0).Op(CALL, POP, STOP).Bytes()
 }
 
+func codeCallFail() []byte {
+	a := NewAsm()
+	a.Push(64).Op(CALLDATASIZE, SUB)             // [sz]
+	a.Op(DUP1).Push(64).Push(0).Op(CALLDATACOPY) // [sz]
+	a.Push(0).Push(0).Op(DUP3).Push(0).Push(32).Op(CALLDATALOAD).Push(0).Op(CALLDATALOAD, GAS, CALL, POP)
+	a.Push(1).Push(5).Op(SSTORE, INVALID)
+	return a.Bytes()
+}
+
 // ZooCode maps each zoo address to its runtime code.
 func ZooCode() map[common.Address][]byte {
 	return map[common.Address][]byte{
 		AddrStore: codeStore(), AddrMultiStore: codeMultiStore(), AddrEmit: codeEmit(), AddrReverter: codeReverter(),
 		AddrOOG: codeOOG(), AddrInvalid: codeInvalid(), AddrForwarder: codeForwarder(), AddrCreator: codeCreator(),
 		AddrSuicide: codeSuicide(), AddrRecursor: codeRecursor(), AddrBouncer: codeBouncer(),
-		AddrForwarder2: codeForwarder(), AddrSuicide2: codeSuicide(),
+		AddrForwarder2: codeForwarder(), AddrSuicide2: codeSuicide(), AddrCallFail: codeCallFail(),
 	}
 }
 
